@@ -92,6 +92,8 @@ PointwiseBinary == {"add", "sub", "mul", "truediv", "max", "min", "logaddexp", "
                     "floordiv", "mod", "eq", "ne", "lt", "le", "gt", "ge",
                     "and", "or", "xor", "safesub", "safediv"}
 ArrayReductions == {"sum", "prod", "amax", "amin", "all", "any", "logsumexp"}
+\* mean / var / std over the output shape: params <<axis, keepdims, ddof>>; always real-valued
+ArrayStats == {"mean", "var", "std"}
 
 \* shape after x[parts]; parts apply to the leading axes.
 \* part = [k |-> "int", i] | [k |-> "slice", start, step, n]  (n = number of taken items)
@@ -115,6 +117,16 @@ OutDom1(op, d) ==
                     ELSE (IF keep THEN [j \in 1..nd |-> IF j = ax + 1 THEN 1 ELSE d.sh[j]]
                           ELSE DropAt(d.sh, ax + 1))
           IN Dom(IF op.n \in {"all", "any"} THEN 2 ELSE d.dt, sh))
+    [] op.n \in ArrayStats ->
+         (LET axis == op.p[1]  keep == op.p[2] = 1
+              nd == Len(d.sh)
+              ax0 == IF axis < 0 THEN axis + nd ELSE axis
+              ax == IF ax0 < 0 \/ ax0 >= nd THEN 0 ELSE ax0
+              sh == IF axis = NoAxis
+                    THEN (IF keep THEN [j \in 1..nd |-> 1] ELSE <<>>)
+                    ELSE (IF keep THEN [j \in 1..nd |-> IF j = ax + 1 THEN 1 ELSE d.sh[j]]
+                          ELSE DropAt(d.sh, ax + 1))
+          IN Dom(0, sh))
     [] op.n = "reshape" -> Dom(d.dt, op.p)
     [] op.n = "getslice" -> Dom(d.dt, SliceShape(d.sh, op.p))
     [] OTHER -> Dom(-1, <<>>)
@@ -329,6 +341,7 @@ ApplyUn(op, a) ==
   CASE HasU(a) -> UArr
     [] op.n \in PointwiseUnary -> Pointwise1(op.n, a)
     [] op.n \in ArrayReductions -> ReduceArr(op.n, a, op.p[1], op.p[2] = 1)
+    [] op.n \in ArrayStats -> StatArr(op.n, a, op.p[1], op.p[2] = 1, op.p[3])
     [] op.n = "reshape" -> Reshape(a, op.p)
     [] op.n = "getslice" -> GetSlice(a, op.p, 0)
     [] OTHER -> UArr
